@@ -227,6 +227,21 @@ func RunC07(rc *harness.RunCtx) harness.Outcome {
 			return fail("joint-value-independent-of-party-stream", scName+"|joint", "the joint value (%s) is the same in two runs that differ only in party %d's random stream", base.res.joint, i)
 		}
 		probes["joint_value_changed"]++
+		if ja, ok := base.res.jointBy[i]; ok {
+			jb := alt.res.jointBy[i]
+			da, _ := hex.DecodeString(ja)
+			db, _ := hex.DecodeString(jb)
+			if len(da) == 0 || len(da) != len(db) {
+				return harness.Outcome{HarnessErr: fmt.Errorf("derived joint value of party %d missing in one run of the pair", i)}
+			}
+			for o := 0; o < len(da); o += 8 {
+				e := min(o+8, len(da))
+				if bytes.Equal(da[o:e], db[o:e]) {
+					return fail("derived-joint-value-independent-of-party-stream", scName+"|derived", "bytes [%d,%d) of the sub-context pairwise seed derived from the session (%x) are identical in two runs that differ only in party %d's random stream", o, e, da[o:e], i)
+				}
+			}
+			probes["derived_joint_value_changed"]++
+		}
 		if sc.jointUniform {
 			ja, e1 := hex.DecodeString(base.res.joint)
 			jb, e2 := hex.DecodeString(alt.res.joint)
